@@ -73,7 +73,7 @@ pub fn budget(prop: &str, tier: Tier) -> u64 {
         ("C17", t) => pc_close::budget(prop, t),
         ("C14", t) => srtpgate::budget(prop, t) + srtpgate_pc::budget(prop, t),
         ("C07", t) => hostile::budget(prop, t),
-        ("C01", Tier::Quick) => 20_000,
+        ("C01", Tier::Quick) => 40_000,
         ("C01", Tier::Thorough) => 600_000,
         ("C12", Tier::Quick) => 6000,
         ("C12", Tier::Thorough) => 200_000,
